@@ -8,6 +8,7 @@ import (
 	"math/rand"
 	"net/http"
 	"strings"
+	"unicode/utf8"
 
 	"verif/harness/internal/coqgen"
 	"verif/harness/internal/idp"
@@ -223,23 +224,41 @@ func Run(dir, tier string, seed int64) error {
 			}
 		}
 	}
-	// end-to-end: the handler uses the same template object (callback with POST binding)
-	st := env.Storage
-	st.Apps["app-1"] = "https://sp.example/metadata"
-	for i, h := range hostile[:12] {
-		sid := fmt.Sprintf("e2e-%d", i)
-		st.Requests[sid] = &idp.AuthReq{ID: sid, AppID: "app-1", RelayState: h, ACS: "https://sp.example/acs", Binding: idp.PostBinding, AuthReqID: "_r"}
-		rep := env.Do(idp.ReqSpec{Method: http.MethodGet, Path: "/login", Query: []idp.Param{idp.Q("id", sid)}}.HTTP())
-		var buf bytes.Buffer
-		if !haveHooks {
-			break
-		}
-		renderForm(env, &buf, false, h, rep.FormMsg, "https://sp.example/acs")
-		run.Res.Evaluations++
-		if rep.Kind != "saml-post" || !bytes.Equal(buf.Bytes(), rep.Body) {
-			run.Fail(coqgen.Failure{ID: 100000 + i, Class: "handler-page-differs-from-template", What: "the page sent by the callback differs from the template rendering of the same three values", Input: map[string]interface{}{"relay": h}})
+	// end-to-end: the pages the two endpoints send must be the template rendering of exactly the values they were given
+	// (stored RelayState / ACS URL for the login callback; the request's RelayState and the registered SLO location for /SLO)
+	e2e := 0
+	for _, lo := range []bool{false, true} {
+		for i, h := range hostile {
+			for pos, pair := range [][2]string{{h, "https://sp.example/acs"}, {"rs", h}} {
+				if !haveHooks {
+					break
+				}
+				relay, url := pair[0], pair[1]
+				if lo && pos == 1 && (!utf8.ValidString(url) || strings.ContainsAny(url, "\x00\r\n\t\x0b\x0c\x1b") || strings.TrimSpace(url) != url) {
+					// the SLO location travels through the SP's metadata XML, which cannot carry these values unchanged
+					run.Count("e2e-url-not-xml-representable")
+					continue
+				}
+				var got bytes.Buffer
+				msg, err := renderEndToEnd(env, &got, lo, relay, url)
+				if err != nil {
+					run.Count("e2e-no-form")
+					continue
+				}
+				var want bytes.Buffer
+				renderForm(env, &want, lo, relay, msg, url)
+				run.Res.Evaluations++
+				e2e++
+				run.Count("e2e-compared")
+				if !bytes.Equal(want.Bytes(), got.Bytes()) {
+					pi := tokenize(got.Bytes())
+					run.Fail(coqgen.Failure{ID: 100000 + i*4 + pos*2 + map[bool]int{false: 0, true: 1}[lo], Class: "handler-page-differs-from-template",
+						What:  fmt.Sprintf("the page sent by the endpoint differs from the template rendering of the same three values (RelayState parsed back as %q, action %q)", pi.inputs["RelayState"], pi.action),
+						Input: map[string]interface{}{"logout": lo, "relay": relay, "url": url}})
+				}
+			}
 		}
 	}
-	run.Res.Rule = "both templates rendered through the provider's own template objects (verif hook) for every byte value in each of the three positions, 35 hostile strings (quotes, tags, entity look-alikes, NUL, CR/LF, invalid UTF-8, script/data URLs, scheme-less and mixed-case URLs) in every position, random strings over a metacharacter alphabet, and values up to 64 KiB; each page is compared byte for byte with the Coq model (pages < 20 kB) and tokenised with the vendored x/net/html tokenizer (one form, two hidden fields with exactly the values, no active element, no script URL); 12 pages are additionally produced by the callback handler and compared with the template rendering. distinct = (input class, template, page length class)."
+	run.Res.Rule = "both templates rendered through the provider's own template objects (verif hook) for every byte value in each of the three positions, 35 hostile strings (quotes, tags, entity look-alikes, NUL, CR/LF, invalid UTF-8, script/data URLs, scheme-less and mixed-case URLs) in every position, random strings over a metacharacter alphabet, and values up to 64 KiB; each page is compared byte for byte with the Coq model (pages < 20 kB) and tokenised with the vendored x/net/html tokenizer (one form, two hidden fields with exactly the values, no active element, no script URL); every hostile string is additionally sent through the real endpoints (login callback with it as stored RelayState / ACS URL, /SLO with it as RelayState / registered SLO location) and the page sent is compared byte for byte with the template rendering of the same values. distinct = (input class, template, page length class)."
 	return run.Finish()
 }
